@@ -47,6 +47,9 @@ def run(ctx, config='rel-all'):
     from .. import runner
     from . import c10
     c10.check_raw_iterator(runner.Sub(ctx, 'R6', 'C10'), db, config, A, only_raw=True)
+    # ---- R7 reset re-establishes the counter on EVERY path that released chunks (the path obligations of C06 on reset)
+    from . import c06
+    c06.run(runner.Sub(ctx, 'R7', 'C06'), config, shares=False)
     # ---- O2 accessors
     val = A.get('allocated_bytes')
     if val:
